@@ -254,7 +254,7 @@ def n0pretty(
                 if isinstance(item, dict):
                     key = sub_item
 
-                    if indent_ < 111:
+                    if indent_ < 111 or json_convention:  # the "{.......}" cut-off of the debug printer is not JSON
                         sub_item_value = n0pretty(
                                                 dict.__getitem__(item, key),
                                                 indent_ + 1,
@@ -302,7 +302,7 @@ def n0pretty(
                     else:
                         sub_item_value = ""
 
-                    if indent_ < 111:
+                    if indent_ < 111 or json_convention:  # the "{.......}" cut-off of the debug printer is not JSON
                         sub_item_pretty = str(n0pretty(
                                                 sub_item,
                                                 indent_ + 1,
